@@ -5,6 +5,7 @@
 // over all pairs of valid duplicate-free texts up to a token budget; keys are
 // spelled with and without escapes.
 #include <memory>
+#include <set>
 
 #include "common/families.hpp"
 #include "common/refjson.hpp"
@@ -95,7 +96,49 @@ int main(int argc, char** argv) {
       }
   }
 
-  vr::Family f1, f2;
+  // shape-bounded set: <= 2 children per container, nesting depth <= 2 plus empty containers at depth 3
+  // (two-member objects nested in two-member objects on both sides), keys a,b in both orders
+  std::vector<std::string> WD;
+  std::vector<ref::Value> VD;
+  {
+    std::vector<std::string> lv = {"1", "{}"};
+    if (!quick && !HAVE_ASAN) {
+      lv.push_back("\"s\"");
+      lv.push_back("[]");
+    }
+    auto containers = [](const std::vector<std::string>& S) {
+      std::vector<std::string> out = {"[]", "{}"};
+      for (auto& x : S) out.push_back("[" + x + "]");
+      for (auto& x : S)
+        for (auto& y : S) out.push_back("[" + x + "," + y + "]");
+      for (const char* k : {"\"a\"", "\"b\""})
+        for (auto& x : S) out.push_back(std::string("{") + k + ":" + x + "}");
+      for (int o = 0; o < 2; o++)
+        for (auto& x : S)
+          for (auto& y : S) out.push_back(std::string("{") + (o ? "\"b\"" : "\"a\"") + ":" + x + "," + (o ? "\"a\"" : "\"b\"") + ":" + y + "}");
+      return out;
+    };
+    auto dedupe = [](std::vector<std::string>& v) {
+      std::vector<std::string> o;
+      std::set<std::string> seen;
+      for (auto& x : v)
+        if (seen.insert(x).second) o.push_back(x);
+      v = o;
+    };
+    std::vector<std::string> v1 = lv;
+    for (auto& c : containers(lv)) v1.push_back(c);
+    dedupe(v1);
+    WD = lv;
+    for (auto& c : containers(v1)) WD.push_back(c);
+    dedupe(WD);
+    for (auto& t : WD) VD.push_back(ref::parse(t).v);
+  }
+  vr::Family f1, f2, f3;
+  f3.name = "LZ_shape_depth2";
+  f3.count = (uint64_t)WD.size() * WD.size();
+  f3.group = "LZd";
+  f3.chunk = 256;
+  f3.rule = "all ordered pairs over the " + std::to_string(WD.size()) + " duplicate-free values with <= 2 children per container and nesting depth <= 2 (+ empty containers below), keys a,b in both orders";
   f1.name = "LZ_pairs";
   f1.count = (uint64_t)W.size() * W.size();
   f1.group = "LZ";
@@ -109,9 +152,10 @@ int main(int argc, char** argv) {
   f2.rule = "pairs over re-spaced variants (1/31/63/64/65 spaces after structural tokens) of the larger texts";
 
   vr::CheckFn check = [&](const vr::Family& f, uint64_t idx, vr::Ctx& ctx) {
-    const bool sp = f.name.size() > 8;
-    const auto& TW = sp ? Ws : W;
-    const auto& TV = sp ? Vs : V;
+    const bool sp = f.name == "LZ_pairs_spaced";
+    const bool sd = f.name == "LZ_shape_depth2";
+    const auto& TW = sd ? WD : sp ? Ws : W;
+    const auto& TV = sd ? VD : sp ? Vs : V;
     size_t ti = idx / TW.size(), si = idx % TW.size();
     const std::string& t = TW[ti];
     const std::string& s = TW[si];
@@ -137,7 +181,7 @@ int main(int argc, char** argv) {
     if (ref::has_dup_keys(r.v)) ctx.violation("lazy_dup_keys", "lazy_dup_keys", desc, "result %s has duplicate keys", out.c_str());
   };
 
-  std::vector<vr::Family> fams = {f1, f2};
+  std::vector<vr::Family> fams = {f1, f2, f3};
   if (args.replay) return R.replay_one(fams, check);
   const std::string only = args.get("only");
   for (auto& f : fams)
